@@ -1,4 +1,5 @@
 import Ecal.Lemmas.PoolEnabled
+import Ecal.Gen.C09
 /-!
 # C09 — the thread pool runs every accepted task exactly once without outside help
 
@@ -49,46 +50,110 @@ theorem no_double_start {v : Variant} {s : State} (h : Reachable v s) (hn : s.ad
   (task_multiset h).nodup_iff.2 hn
 
 /-- **No stuck task** (the repaired protocol). Whenever a task is queued and at least one worker
-    has not been told to exit, some pool-internal step is enabled: a worker step, or the remaining
-    `L.Lock(); Signal()` of an `AddTask` that already pushed, or the remaining locked broadcast of a
-    `SetWorkerCount` in progress. No further API call and no polling broadcast is needed. -/
+    has not been told to exit, either a pool-internal step *other than the return of a running task*
+    is enabled — a worker step, or the remaining `L.Lock(); Signal()` of an `AddTask` that already
+    pushed, or the remaining locked broadcast of a `SetWorkerCount` in progress —, or every such
+    worker is busy running a task (the pool is saturated; then the queued task legitimately waits
+    for one of them). In particular "a task queued, one worker running, another parked in Wait,
+    nothing in flight" is unreachable: a queued task never waits for another task while a worker
+    sleeps. No further API call and no polling broadcast is needed. -/
 theorem no_stuck_task {s : State} (h : Reachable repaired s) (hq : s.queue ≠ []) (hw : 0 < s.live) :
-    ∃ e ∈ internalEvents s, (step repaired s e).isSome := by
+    (∃ e ∈ internalEvents s, isFinish e = false ∧ (step repaired s e).isSome) ∨
+      s.live = cntOf s.pcs .run := by
+  have _ := hw
   rcases enabled_or_parked h with he | ⟨hp, hin⟩
-  · exact he
-  · exfalso
+  · exact Or.inl he
+  · right
     have hinv := inv_reachable h
     have hlen := length_eq_sum s.pcs
     have hq' : 0 < (abs s).queue := by
       cases hs : s.queue with
       | nil => exact absurd hs hq
       | cons a l => simp [abs, hs]
-    have := hinv.q hq'
-    simp only [State.live, clive] at hw
-    simp only [asleep, awake, abs] at this hin
-    have h2 := this (by show 0 < cntOf s.pcs .willWait + cntOf s.pcs .waiting; omega)
-    change 0 < _ + (abs s).inflight at h2
-    omega
+    have hQ := hinv.q
+    simp only [State.live, clive] at hw ⊢
+    simp only [asleep, awake, abs, CState.inflight] at hQ hin hq'
+    by_cases hwait : 0 < cntOf s.pcs .waiting
+    · have := hQ (by omega)
+      omega
+    · omega
 
-example : ∃ s, Reachable repaired s ∧ s.queue ≠ [] ∧ 0 < s.live :=
-  ⟨_, ⟨[.swcUp 1, .aPush 7], rfl⟩, by decide, by decide⟩
+/-- the interesting case is not vacuous: worker 0 runs task 1, worker 1 sleeps, task 2 was just pushed —
+    its AddTask still holds the wake-up -/
+example : ∃ s, Reachable repaired s ∧ s.queue = [2] ∧ s.pcs = [.run 1, .waiting] ∧ s.pushed = 1 :=
+  ⟨_, ⟨[.swcSet 2, .killPass 0, .killPass 1, .aPush 1, .pop 0 1, .popNone 1, .aLock, .aSignal none, .regIdle 1,
+        .wLock 1, .readQ 1, .readKill 1, .wWait 1, .aPush 2], rfl⟩, by decide, by decide, by decide⟩
+
+/-- **A queued task is started after boundedly many pool-internal steps.** Along any sequence of
+    pool-internal events (worker steps incl. returns of running tasks, the rest of calls in flight; no
+    new call, no polling broadcast) that contains no `Pop` of a task, the measure `cmu` — per worker the
+    number of its own steps to the next Pop, plus the steps left of the calls in flight — drops by at
+    least one per event while the queue is non-empty. Hence every such sequence from `s` is at most
+    `cmu (abs s)` long. Together with `no_stuck_task` (such a sequence can always be continued unless
+    the pool is saturated or has lost all its workers): under scheduler fairness (F1) a queued task
+    is started; a running task has to return (F2) only when every worker is busy. -/
+theorem pop_within_bound {s s' : State} {es : List Event} (hq : s.queue ≠ [])
+    (hes : ∀ e ∈ es, isInternal e = true ∧ isPop e = false)
+    (h : runFrom repaired s es = some s') :
+    es.length + cmu (abs s') ≤ cmu (abs s) ∧ s'.queue.length = s.queue.length := by
+  induction es generalizing s with
+  | nil => simp [runFrom, List.foldlM] at h; subst h; simp
+  | cons e es ih =>
+    simp only [runFrom, List.foldlM_cons] at h
+    cases hs : step repaired s e with
+    | none => simp [hs] at h
+    | some s1 =>
+      simp [hs] at h
+      have he := hes e (by simp)
+      have hq0 : 0 < (abs s).queue := by
+        cases hl : s.queue with
+        | nil => exact absurd hl hq
+        | cons a l => simp [abs, hl]
+      have hstep := cmu_step (sim_step hs) (by rw [internal_abs]; exact he.1) (by rw [isPop_abs]; exact he.2) hq0
+      have hl : s1.queue.length = s.queue.length := by simpa [abs] using hstep.2
+      have hq1 : s1.queue ≠ [] := by
+        intro hn
+        rw [hn] at hl
+        exact hq (List.eq_nil_of_length_eq_zero hl.symm)
+      have := ih hq1 (fun e' he' => hes e' (by simp [he'])) h
+      simp only [List.length_cons]
+      omega
+
+/-- every element of `internalEvents` is internal in the sense of `pop_within_bound` -/
+theorem internal_of_mem {s : State} {e : Event} (h : e ∈ internalEvents s) : isInternal e = true := by
+  simp only [internalEvents, workerEvents, List.mem_append, List.mem_flatMap, List.mem_range, List.mem_cons,
+    Option.mem_toList] at h
+  rcases h with ⟨i, _, h | h⟩ | h
+  · rcases h with h | h
+    · simp at h
+      rcases h with h | h | h | h | h | h | h | h | h | h | h | h | h | h <;> subst h <;> rfl
+    · cases hq : s.queue.head? <;> simp [hq] at h
+      subst h; rfl
+  · simp at h; subst h; rfl
+  · simp at h
+    rcases h with h | h | h | h <;> subst h <;> rfl
 
 /-- **Resizing converges.** No reachable state has a pending kill request (`workerKill > 0`) while
     every remaining worker is parked: as long as `workerKill > 0` and a worker has not been told to
-    exit, a pool-internal step is enabled. (Each `killExit` step decrements `workerKill` and removes
-    one worker; under fairness the requested number of workers exits.) -/
+    exit, a pool-internal step other than the return of a task is enabled, or every such worker is
+    busy running a task (it takes the kill request when the task returns). Each `killExit` step
+    decrements `workerKill` and removes one worker; `resize_target` gives the exact count. -/
 theorem resize_converges {s : State} (h : Reachable repaired s) (hk : 0 < s.kill) (hw : 0 < s.live) :
-    ∃ e ∈ internalEvents s, (step repaired s e).isSome := by
+    (∃ e ∈ internalEvents s, isFinish e = false ∧ (step repaired s e).isSome) ∨
+      s.live = cntOf s.pcs .run := by
+  have _ := hw
   rcases enabled_or_parked h with he | ⟨hp, hin⟩
-  · exact he
-  · exfalso
+  · exact Or.inl he
+  · right
     have hinv := inv_reachable h
     have hlen := length_eq_sum s.pcs
-    have := hinv.k (by simpa [abs] using hk)
-    simp only [State.live, clive] at hw
-    have h2 := this (by show 0 < cntOf s.pcs .willWait + cntOf s.pcs .waiting; omega)
-    simp only [CState.inflight] at hin
-    omega
+    have hK := hinv.k (by simpa [abs] using hk)
+    simp only [State.live, clive] at hw ⊢
+    simp only [asleep, abs, CState.inflight] at hK hin
+    by_cases hwait : 0 < cntOf s.pcs .waiting
+    · have := hK (by omega)
+      omega
+    · omega
 
 example : ∃ s, Reachable repaired s ∧ 0 < s.kill ∧ 0 < s.live :=
   ⟨_, ⟨[.swcUp 2, .swcDown 0], rfl⟩, by decide, by decide⟩
@@ -132,7 +197,7 @@ theorem joinall_drains {v : Variant} {s : State} (h : Reachable v s) (hg : joinA
   simpa [h1, h2] using task_multiset h
 
 example : ∃ s, Reachable repaired s ∧ joinAllGuard s = true ∧ s.done = [7] :=
-  ⟨_, ⟨[.swcUp 1, .aPush 7, .killPass 0, .pop 0 7, .finish 0, .joinKill, .killPass 0, .popNone 0, .exit 0], rfl⟩,
+  ⟨_, ⟨[.swcUp 1, .aPush 7, .killPass 0, .pop 0 7, .finish 0, .joinKill, .killPass 0, .popNone 0, .drainExit 0, .exit 0], rfl⟩,
     by decide, by decide⟩
 
 /-- events that start another resize or JoinAll (they set the kill counter) -/
@@ -145,22 +210,22 @@ theorem isResize_abs (s : State) (e : Event) : (absEvent s e).isResize = isResiz
 
 /-- **Resizing reaches the requested number** (SetWorkerCount after the resize-race repair,
     `swcSet c`: one critical section that computes the delta from `len(workerMap) - workerExiting`).
-    From any state in which no JoinAll is being carried out (workerKill ≥ 0, no worker on the
-    exit-when-drained path) — in particular
+    From ANY state — in particular
     while an *earlier* resize is still being carried out, with kill requests pending or workers on
     their way out — after `SetWorkerCount(c)` every later state, as long as no further resize/JoinAll
-    starts, satisfies: workers not yet told to exit = `c` + kill requests still to be taken. So the
+    starts, provided the call left `workerKill ≥ 0` (always, except when it finds exactly `c` workers
+    while a JoinAll is in progress: that JoinAll goes on), satisfies: workers not yet told to exit = `c` + kill requests still to be taken. So the
     kill counter never over- or under-shoots; when it has reached 0 exactly `c` workers are left, and
     once the exiting ones are gone `len(workerMap) = c`. -/
 theorem resize_target {s s1 s' : State} {c : Nat} {es : List Event}
-    (hj : cntOf s.pcs .chkF = 0) (hk : 0 ≤ s.kill) (h1 : step repaired s (.swcSet c) = some s1)
+    (h1 : step repaired s (.swcSet c) = some s1) (hk : 0 ≤ s1.kill)
     (hes : ∀ e ∈ es, isResize e = false) (h : runFrom repaired s1 es = some s') :
     0 ≤ s'.kill ∧ (s'.live : Int) = c + s'.kill ∧
       (s'.kill = 0 → cntOf s'.pcs .exiting = 0 → s'.workerCount = c) := by
-  have h0 : CResize c (abs s1) := cresize_set (by simpa [abs] using hj) (by simpa [abs] using hk) (sim_step h1)
+  have h0 : CResize c (abs s1) := cresize_set (sim_step h1) (by simpa [abs] using hk)
   suffices ∀ (es : List Event) (s1 : State), CResize c (abs s1) → (∀ e ∈ es, isResize e = false) →
       runFrom repaired s1 es = some s' → CResize c (abs s') by
-    obtain ⟨hk, hl, _⟩ := this es s1 h0 hes h
+    obtain ⟨hk, hl⟩ := this es s1 h0 hes h
     refine ⟨hk, hl, fun hk0 hex => ?_⟩
     have hlen := length_eq_sum s'.pcs
     have hl' : (clive (cntOf s'.pcs) : Int) = c := by simpa [abs, hk0] using hl
@@ -192,6 +257,31 @@ example : ∃ s, runFrom repaired init
 example : ∃ s, runFrom repaired init
     [.swcSet 3, .swcSet 2, .killExit 0, .swcSet 1, .killExit 1] = some s ∧ s.live = 1 ∧ s.kill = 0 :=
   ⟨_, rfl, by decide, by decide⟩
+
+/-- **The synchronisation skeleton of threadpool.go is the one the model's atomic steps assume**
+    (facts re-extracted from the source on every run by `harness C09 -tool skeleton`, three-valued:
+    only a REFUTED fact, value 0, breaks this obligation; 2 = not established is reported as a note and
+    answered by a larger search). For the variant the theorems are about (`repaired`): AddTask signals
+    under `L` after its Push; the idle task waits under `L` only after re-reading queue size and
+    workerKill in that same section, inside an `if` on both; SetWorkerCount decides in one
+    workerMapLock section from `len(workerMap) - workerExiting` and its first broadcast is under `L`;
+    kill requests are taken and exits are counted under workerMapLock, the exit decision together with
+    workerKill; workerMap / workerIdleMap are only touched under workerMapLock; lock nesting is acyclic
+    (critical sections as atomic steps cannot deadlock). -/
+theorem skeleton_matches_model :
+    (repaired.signalLocked = true → Gen.C09.signalUnderL ≠ 0 ∧ Gen.C09.pushBeforeSignal ≠ 0) ∧
+    (repaired.recheck = true → Gen.C09.waitUnderL ≠ 0 ∧ Gen.C09.recheckQueueUnderL ≠ 0 ∧
+      Gen.C09.recheckKillUnderL ≠ 0 ∧ Gen.C09.waitGuardedByBoth ≠ 0) ∧
+    Gen.C09.swcOneSection ≠ 0 ∧ Gen.C09.swcCountsExiting ≠ 0 ∧ Gen.C09.swcFirstBroadcastUnderL ≠ 0 ∧
+    Gen.C09.killTakenUnderLock ≠ 0 ∧ Gen.C09.exitingCountedUnderLock ≠ 0 ∧
+    Gen.C09.exitDecidedWithKillInOneSection ≠ 0 ∧ Gen.C09.workerMapsUnderLock ≠ 0 ∧
+    Gen.C09.lockOrderAcyclic ≠ 0 := by decide
+
+/-- the reviewer's interleaving of JoinAll with two resizes: the worker that found the queue empty on the
+    exit-when-drained path re-checks workerKill and stays — two workers, as requested -/
+example : ∃ s, runFrom repaired init
+    [.swcSet 1, .joinKill, .killPass 0, .swcSet 2, .popNone 0, .swcSet 2, .drainExit 0] = some s ∧
+    s.live = 2 ∧ s.kill = 0 := ⟨_, rfl, by decide, by decide⟩
 
 /-- the schedule that loses the wake-up: the worker finds the queue empty; AddTask runs to
     completion (its Signal finds nobody waiting); then the worker goes to sleep -/
